@@ -491,6 +491,10 @@ func (r *Reach) EdgeCond(pred, blk *ssa.BasicBlock) DNF {
 	return r.edge(pred, blk, 0)
 }
 
+// BackEdgeCond returns the condition under which control flows along the back edge pred->blk (the reach of pred
+// conjoined with the branch outcome that takes the edge): the ways an iteration ends through this latch.
+func (r *Reach) BackEdgeCond(pred, blk *ssa.BasicBlock) DNF { return r.edge(pred, blk, 0) }
+
 // ValueCase is one possible (non-φ) definition of a value with the condition under which it is chosen.
 type ValueCase struct {
 	V    ssa.Value
